@@ -1431,6 +1431,118 @@ def _corr_attr(ctx):
                         break
 
 
+# ==============================================================================================
+# (A9) attributes read at trace time (generated table Scico.Generated.CacheAttrs; model TracedObj; theorems
+#      C19_call_time_params / C19_trace_time_stale)
+
+KNOWN_XSTEP = "pgm-xstep-stale-loss-scale"
+
+
+def generate(ctx):
+    import cache_attrs
+
+    sites, params, mutators = cache_attrs.write()
+    ctx.extra["trace_sites"] = len(sites)
+    ctx.extra["trace_sites_cached"] = sum(1 for s in sites if s[3] in ("perObjectJit", "storedBranch", "staticJit"))
+    return [("Scico.Generated.CacheAttrs", "attributes read at trace time: no functional/loss parameter, no attribute with a setter; inventory as audited")]
+
+
+def _trace_cases():
+    """(name, class in the generated table, attribute -> list of values, make(values dict), call(obj, sig), setter(obj, attr, value),
+    signatures, as-is trace-time attributes when they differ from the documented behaviour | None)"""
+    import jax.numpy as jnp
+    from scico import functional as F
+    from scico import linop, loss, optimize
+
+    x23 = jnp.asarray(np.array([[1.5, -2.0, 0.25], [3.0, 0.5, -1.0]]))
+    x4 = jnp.asarray(np.array([2.0, -1.0, 0.5, 4.0]))
+    xs = [x23, x4]
+    hs = [jnp.asarray(np.array([1.0, 2.0, -1.0])), jnp.asarray(np.array([0.5, 0.0, 3.0])), jnp.asarray(np.array([-2.0, 1.0, 1.0]))]
+    x6 = jnp.asarray(np.array([1.0, -2.0, 0.5, 3.0, 0.0, 1.5]))
+    y = jnp.asarray(np.array([1.0, -0.5, 2.0, 0.25]))
+    d = jnp.asarray(np.array([1.0, 2.0, 0.5, 1.5]))
+    out = []
+    for jit in (True, False):
+        out.append((f"Convolve(jit={jit}).h", "Convolve", {"h": hs}, lambda v, jit=jit: linop.Convolve(v["h"], (6,), input_dtype=np.float64, mode="full", jit=jit),
+                    lambda o, sig: o(x6), setattr, 1, jit, None))
+        out.append((f"SingleAxisFiniteDifference(jit={jit}).circular", "SingleAxisFiniteDifference", {"circular": [True, False, True]},
+                    lambda v, jit=jit: linop.SingleAxisFiniteDifference((6,), input_dtype=np.float64, axis=0, circular=v["circular"], jit=jit),
+                    lambda o, sig: o(x6), setattr, 1, jit, None))
+    out.append(("L2BallIndicator.radius", "L2BallIndicator", {"radius": [1.0, 2.5, 0.5]}, lambda v: F.L2BallIndicator(radius=v["radius"]),
+                lambda o, sig: o.prox(xs[sig], 0.5), setattr, 2, True, None))
+    out.append(("HuberNorm(nonsep).delta", "HuberNorm", {"delta": [0.5, 1.5, 0.25]}, lambda v: F.HuberNorm(delta=v["delta"], separable=False),
+                lambda o, sig: (o(xs[sig]), o.prox(xs[sig], 0.5)), setattr, 2, True, None))
+    out.append(("L1MinusL2Norm.beta", "L1MinusL2Norm", {"beta": [0.5, 0.9, 0.25]}, lambda v: F.L1MinusL2Norm(beta=v["beta"]),
+                lambda o, sig: (o(xs[sig]), o.prox(xs[sig], 0.5)), setattr, 2, True, None))
+
+    def mk_pgm(v):
+        f = loss.SquaredL2Loss(y=y, A=linop.Diagonal(d), scale=v["scale"])
+        return optimize.PGM(f=f, g=0.1 * F.L1Norm(), L0=8.0, x0=jnp.zeros(4))
+
+    vs = [jnp.asarray(np.array([0.3, -0.2, 0.1, 0.4])), jnp.asarray(np.array([[0.3, -0.2, 0.1, 0.4]]))]
+    # the documented mutator of a loss: f.set_scale; the call is the optimiser's proximal-gradient update at a fixed point
+    out.append(("PGM.x_step / f.set_scale", "PGM", {"scale": [0.5, 2.0, 0.125]}, mk_pgm, lambda o, sig: o.x_step(vs[0], 8.0),
+                lambda o, a, val: o.f.set_scale(val), 1, True, ["scale"]))
+    return out
+
+
+def _corr_trace_time(ctx, model):
+    import cache_attrs
+    import cache_catalog as cc
+
+    sites, params, _ = cache_attrs.scan()
+    cached = {}
+    for f, c, n, k, r in sites:
+        if k in ("perObjectJit", "storedBranch", "staticJit"):
+            cached.setdefault(c, set()).update(r)
+    for name, cls, values, mk, call, setter, nsig, jit_on, asis in _trace_cases():
+        names = sorted(values)
+        traced = sorted(a for a in names if jit_on and a in cached.get(cls, set()))
+        for _ in range(ctx.n(2, 6)):
+            ops = [{"k": "call", "sig": 0}]
+            for _ in range(int(ctx.rng.integers(2, 6))):
+                if ctx.rng.random() < 0.5:
+                    a = names[int(ctx.rng.integers(0, len(names)))]
+                    ops.append({"k": "set", "a": a, "v": int(ctx.rng.integers(0, len(values[a])))})
+                else:
+                    ops.append({"k": "call", "sig": int(ctx.rng.integers(0, nsig))})
+            obj = mk({a: values[a][0] for a in names})
+            for o in ops:
+                if o["k"] == "set":
+                    setter(obj, o["a"], values[o["a"]][o["v"]])
+                else:
+                    call(obj, o["sig"])
+            case = {"kind": "trace", "object": name, "trace_time_attributes": traced, "ops": ops}
+            ctx.case(case, ("trace", name, json.dumps(ops)))
+            ctx.count("trace:" + ("trace-time" if traced else "call-time"))
+            for sig in range(nsig):
+                got = cc.canon(call(obj, sig))
+
+                def want_for(tr):
+                    eff = model.call("trace", traced=tr, names=names, init=0, probe=sig, ops=ops)
+                    return eff, cc.canon(call(mk({a: values[a][i] for a, i in zip(names, eff)}), sig))
+
+                eff, want = want_for(traced)
+                if cc.same(got, want, 1e-9):
+                    continue
+                known = None
+                if asis is not None and cc.same(got, want_for(asis)[1], 1e-9):
+                    known = KNOWN_XSTEP
+
+                def oracle(c, sig=sig, got=got):
+                    cur = {a: next((o["v"] for o in reversed(ops) if o["k"] == "set" and o["a"] == a), 0) for a in names}
+                    fresh = cc.canon(call(mk({a: values[a][cur[a]] for a in names}), sig))
+                    if not cc.same(got, fresh, 1e-9):
+                        return {"case": c, "signature": sig, "current_parameters": {a: repr(values[a][cur[a]]) for a in names},
+                                "used_object": [np.asarray(v).tolist() for v in got], "fresh_object_with_current_parameters": [np.asarray(v).tolist() for v in fresh],
+                                "what": "after this history of calls and parameter updates the object computes with a parameter value it no longer has"}
+                    return None
+
+                ctx.disagree("cache.trace-time", {**case, "probe": sig}, "differs from the model's effective parameters", eff,
+                             oracle=oracle if not traced else None, known_id=known)
+                break
+
+
 def _run_corpus(ctx, model):
     d = common.CORPUS_DIR / PROP
     if not d.exists():
@@ -1507,6 +1619,7 @@ def correspond(ctx, model):
     timed("args", _corr_args, ctx)
     timed("attr", _corr_attr, ctx)
     timed("reuse", _corr_reuse, ctx)
+    timed("trace", _corr_trace_time, ctx, model)
     timed("mutation", _corr_mutation, ctx)
     timed("modes", _corr_modes, ctx)
     _global_state_check(ctx, state0)
@@ -1551,6 +1664,17 @@ def findings(ctx, model):
     for slug, (f, exc) in wit.items():
         if ctx.is_known(slug):
             ctx.known_finding(slug, raises(f, exc))
+    if ctx.is_known(KNOWN_XSTEP):
+        from scico import optimize
+
+        yy = jnp.asarray(np.array([1.0, -0.5, 2.0, 0.25]))
+        mkp = lambda sc: optimize.PGM(f=loss.SquaredL2Loss(y=yy, scale=sc), g=0.1 * F.L1Norm(), L0=8.0, x0=jnp.zeros(4))  # noqa: E731
+        pg = mkp(0.5)
+        vv = jnp.asarray(np.array([0.3, -0.2, 0.1, 0.4]))
+        pg.x_step(vv, 8.0)
+        pg.f.set_scale(2.0)
+        ctx.known_finding(KNOWN_XSTEP, not common.allclose(np.asarray(pg.x_step(vv, 8.0)), np.asarray(mkp(2.0).x_step(vv, 8.0)), rtol=1e-9),
+                          "PGM: x_step(v, L); f.set_scale(2.0); x_step(v, L) still uses scale 0.5")
     if ctx.is_known(KNOWN_HUBER):
         xh = jnp.asarray(np.array([[1.0, -0.5, 2.0], [0.25, -1.5, 0.75]]))
         hb = F.HuberNorm(delta=0.5, separable=False)
